@@ -541,21 +541,8 @@ def simulator_chain(ctx, repo):
            f"e.g. L={wit['L'] if wit else ''}: {wit['segments'] if wit else ''} segment(s) but modulus {wit['modulus'] if wit else ''}, so the last segment never carries next=0 and the client can never complete the transfer",
            loc(fi, nxt), detail=wit,
            sample={"rule": "R6", "S": S, "L": Ltext, "modulus": ast.unparse(M), "residues_checked": S, "mismatching_residues": bad[:8]})
-    # response(idx, next, block[start:start+length]) and queued in loop order
-    resp = [c for c in walk_no_nested(lp) if isinstance(c, ast.Call) and call_name(c) == "response"]
-    ok = len(resp) == 1 and len(resp[0].args) >= 3 and ast.unparse(resp[0].args[0]) == idx and ast.unparse(resp[0].args[1]) == ast.unparse(nxt.targets[0])
-    ctx.ob("R6", f"{key}::segment-header", ok, f"{fi.qual}: segment is not built as response(idx, next, ...)", loc(fi, lp))
-    if ok:
-        sl = resp[0].args[2]
-        oks = isinstance(sl, ast.Subscript) and isinstance(sl.slice, ast.Slice) and ast.unparse(sl.slice.lower) == start
-        if oks:
-            up = sl.slice.upper
-            oks = isinstance(up, ast.BinOp) and isinstance(up.op, ast.Add) and ast.unparse(up.left) == start
-        ctx.ob("R6", f"{key}::segment-slice", oks, f"{fi.qual}: segment payload is not block[start : start + length]", loc(fi, lp))
-        # length = min(S, ...)
-        ln = [n for n in walk_no_nested(lp) if isinstance(n, ast.Assign) and oks and ast.unparse(n.targets[0]) == ast.unparse(sl.slice.upper.right)]
-        okl = bool(ln) and isinstance(ln[0].value, ast.Call) and call_name(ln[0].value) == "min" and any(repo.try_fold(a, fi.mod, fi.cls) == S for a in ln[0].value.args)
-        ctx.ob("R6", f"{key}::segment-length", okl, f"{fi.qual}: segment length is not min({S}, remaining)", loc(fi, lp))
+    # header / payload slice / segment length of every segment are decided by simulator_chain_concrete (all 1024 lengths
+    # from four starts: indices, next, and payload bytes), not by the shape of the statements
 
 
 def check(ctx):
